@@ -226,6 +226,33 @@ def run(chk):
 
     chk.rule("R6", "current column names in the cache come from the name maps, never from a stored Col object's creation-time .name")
     chk.floor("R6", "Col.name uses in the cache layer", _kinds.cache_name_discipline(chk, "R6"), 2)
+    # ---- R7: state the compilers recompute from the AST is only ever written together with an AST node
+    chk.rule("R7", "cache fields that the compilers recompute from the AST (names, grouping, limit, filter state) are written only inside Cache (update / from_ast), never patched from outside")
+    mirrored = {"name_to_uuid", "uuid_to_name", "partition_by", "limit", "group_by", "is_filtered", "cols"}
+    n7 = 0
+    for mod in chk.repo.modules.values():
+        if mod.name.endswith("pipe.cache"):
+            continue
+        short_ = mod.name.split("_internal.")[-1]
+        if not short_.startswith(("pipe.", "backend.", "tree.")):
+            continue
+        for a in ast.walk(mod.tree):
+            tgt = None
+            if isinstance(a, (ast.Assign, ast.AugAssign, ast.AnnAssign)):
+                for t in (a.targets if isinstance(a, ast.Assign) else [a.target]):
+                    base = t.value if isinstance(t, ast.Subscript) else t
+                    if isinstance(base, ast.Attribute) and isinstance(base.value, ast.Attribute) and base.value.attr == "_cache":
+                        tgt = base
+            elif isinstance(a, ast.Call) and isinstance(a.func, ast.Attribute) and a.func.attr in ("append", "extend", "update", "add", "clear", "pop", "remove", "insert") and isinstance(a.func.value, ast.Attribute) and isinstance(a.func.value.value, ast.Attribute) and a.func.value.value.attr == "_cache":
+                tgt = a.func.value
+            if tgt is None:
+                continue
+            n7 += 1
+            chk.ob("R7", mod, a, f"{mod.name.split('.')[-1]}: write to _cache.{tgt.attr}", tgt.attr not in mirrored,
+                   f"`{norm(a)[:90]}` patches the cache field `{tgt.attr}` from outside Cache.update: the back ends recompute that state from the "
+                   "AST (there is no verb node behind the change), so the table's metadata and the exported frame disagree")  # fmt: skip
+    chk.floor("R7", "writes to cache fields outside pipe/cache.py", n7, 1)
+    chk.floor("R6", "Col objects of the verb node / grouping state used in the compilers", _kinds.backend_name_discipline(chk, "R6", sib), 3)
     chk.assumptions += [
         "sequence terms abstract element-wise projections (col._uuid, name lookups) as identities",
         "Join: visible names of both inputs are disjoint (obligation of verbs.join, C06)",
